@@ -78,6 +78,9 @@ pub fn spaces(tier: Tier) -> Vec<Space<'static>> {
     let ko = refmodel::gen::keyorder_docs();
     let p4 = pool.clone();
     sp.push(Space::new("key-order objects (byte order != length order != case order)", ko.len() as u64, move |i, acc| check_doc(&ko[i as usize], &Opts { extremes: false, pool: p4.clone(), sets: false }, acc)));
+    let sk = refmodel::gen::strkey_docs();
+    let p5 = pool.clone();
+    sp.push(Space::new("special-character keys (every key and pair of keys from SSTR)", sk.len() as u64, move |i, acc| check_doc(&sk[i as usize], &Opts { extremes: false, pool: p5.clone(), sets: false }, acc)));
     let d1q = univ::d1q();
     let p2 = pool.clone();
     sp.push(Space::new("d1q-derived-args", d1q.len() as u64, move |i, acc| check_doc(&d1q[i as usize], &Opts { extremes: false, pool: p2.clone(), sets: false }, acc)));
